@@ -68,6 +68,8 @@ type Pipe struct {
 
 	FaultAt   int // -1 = none; else device bytes delivered before the fault applies
 	FaultKind string
+	// FaultError, if set, is the error a FaultErr reports instead of ErrLink
+	FaultError error
 	// WriteFailAfter: Write returns ErrLink once this many writes succeeded (-1 = never).
 	WriteFailAfter int
 	writes         int
@@ -299,6 +301,10 @@ func (p *Pipe) Read(n int) ([]byte, error) {
 					return nil, io.EOF
 				case FaultErr:
 					p.log("rerr", []byte("err"))
+
+					if p.FaultError != nil {
+						return nil, p.FaultError
+					}
 
 					return nil, ErrLink
 				default:
